@@ -1,4 +1,4 @@
 SPECIFICATION Spec
 INVARIANTS TypeOK ChainWellFormed CurValid AllWaitingGetIt OncePerEmit NoDanglingRead ReAwaitMissesNone DisconnectWakesAll CallbackAnswers NoStuckState
-PROPERTIES DisconnectPromisesCancel AwaitDisconnectedFails CallbacksFreed
+PROPERTIES DisconnectPromisesCancel AwaitDisconnectedFails AwaitAliveSubscribes RebindFollowsSource CallbacksFreed
 CHECK_DEADLOCK FALSE
